@@ -252,6 +252,7 @@ def apply_step(rng, spec, root, notpassed):
             for name in rng.sample(gen_dsl.PY_NAMES, k=rng.randint(0, 2)):
                 new[name] = {"el": small_spec(rng), "required": rng.random() < 0.5, "source": None}
             if new:
+                kw_before = copy.deepcopy(kw)
                 kw["properties"] = new
                 objects = {
                     name: sut.Property(gen_dsl.build(p["el"]), required=p["required"]) for name, p in new.items()
@@ -265,6 +266,11 @@ def apply_step(rng, spec, root, notpassed):
                         REFUSED[1] += 1
                     except Exception:  # pylint: disable=broad-except
                         REFUSED[0] += 1
+                        if rng.random() < 0.4:
+                            # ... and the refusal is the end of it: the element is configured as before
+                            kw.clear()
+                            kw.update(kw_before)
+                            return "prop_replace_refused"
                 live.properties = objects
             else:
                 kw.pop("properties", None)
